@@ -45,15 +45,20 @@ type carouselSlot struct {
 	cancel   context.CancelFunc
 	returned atomic.Bool
 	running  atomic.Int64
+	expired  bool // the parent had ended by deadline before NewGroup
 }
 
 type carouselStats struct {
 	dos, stops int64
 }
 
-func newCarouselSlot() *carouselSlot {
+func newCarouselSlot(expired bool) *carouselSlot {
 	parent, cancel := context.WithCancel(context.Background())
-	return &carouselSlot{g: xsync.NewGroup(parent), cancel: cancel}
+	if expired {
+		cancel()
+		parent, cancel = expiredParent()
+	}
+	return &carouselSlot{g: xsync.NewGroup(parent), cancel: cancel, expired: expired}
 }
 
 // stressCarousel runs the carousel for the given time (or until the first violation). It returns a
@@ -83,10 +88,10 @@ func stressCarousel(cfg StressCfg, budget time.Duration) (*fail, carouselStats) 
 	}
 	slots := make([]atomic.Pointer[carouselSlot], nslots)
 	for i := range slots {
-		slots[i].Store(newCarouselSlot())
+		slots[i].Store(newCarouselSlot(false))
 	}
 	var stop atomic.Bool
-	var begunAfter, stillRunning atomic.Int64
+	var begunAfter, stillRunning, begunAfterExpired atomic.Int64
 	var panicMsg atomic.Value
 	var nDo, nStop atomic.Int64
 	notePanic := func() {
@@ -107,6 +112,9 @@ func stressCarousel(cfg StressCfg, budget time.Duration) (*fail, carouselStats) 
 				sl.g.Do(func(ctx context.Context) {
 					if sl.returned.Load() {
 						begunAfter.Add(1)
+						if sl.expired {
+							begunAfterExpired.Add(1)
+						}
 						stop.Store(true)
 					}
 					sl.running.Add(1)
@@ -124,7 +132,7 @@ func stressCarousel(cfg StressCfg, budget time.Duration) (*fail, carouselStats) 
 			defer notePanic()
 			n := int64(0)
 			for i := s; !stop.Load(); i += stoppers {
-				fresh := newCarouselSlot()
+				fresh := newCarouselSlot(cfg.ExpiredEvery > 0 && (i/stoppers)%cfg.ExpiredEvery == cfg.ExpiredEvery-1)
 				sl := slots[i%nslots].Swap(fresh)
 				// doers that loaded `sl` before the swap are calling Do on it now
 				if cfg.PlainStop && i%3 == 0 {
@@ -157,6 +165,9 @@ func stressCarousel(cfg StressCfg, budget time.Duration) (*fail, carouselStats) 
 	params := map[string]interface{}{"kind": "do", "phase": "real-threads-carousel"}
 	if n := begunAfter.Load(); n > 0 {
 		params["evidence"] = "f-began-after-return"
+		if begunAfterExpired.Load() == n {
+			params["parent"] = "deadline-passed"
+		}
 		return &fail{"barrier-run-started-after-stopandwait", params,
 			fmt.Sprintf("real threads (carousel of %d groups, %d doers, %d stoppers, GOMAXPROCS %d): %d function(s) registered through Do began running after the StopAndWait of their group had returned (the flag is stored after the return and read at the entry of f)", nslots, doers, stoppers, gmp, n)}, st
 	}
@@ -186,7 +197,8 @@ func carouselConfigs() []StressCfg {
 		// and the short-lived f goroutines find a free P at once (with one doer per P the stoppers starved:
 		// 70 StopAndWait calls per second, no hit in 15 s); 20 000-60 000 StopAndWait calls per second here
 		{Carousel: true, Kind: "do", Groups: 8, Doers: 8, Stoppers: 8, Gmp: 32},
-		{Carousel: true, Kind: "do", Groups: 4, Doers: 8, Stoppers: 4, Gmp: 64, PlainStop: true},
+		// every 8th fresh group of this configuration has a parent that ended by deadline before NewGroup (fix6)
+		{Carousel: true, Kind: "do", Groups: 4, Doers: 8, Stoppers: 4, Gmp: 64, PlainStop: true, ExpiredEvery: 8},
 	}
 }
 
